@@ -353,19 +353,9 @@ def check_writer(ctx, case, ignore_known=False):
                 if r["kind"] in ("cell", "name"):
                     refd.add(lib["cells"][r["target"]]["name"])
         model_tops = sorted(c["name"] for c in lib["cells"] if not c.get("outside") and c["name"] not in refd)
-        # known finding C04-K1: a cell that is referenced only BY NAME is still listed (Library::top_level follows pointers only)
-        by_ptr = set()
-        for c in lib["cells"]:
-            if not c.get("outside"):
-                for r in c["refs"]:
-                    if r["kind"] == "cell":
-                        by_ptr.add(lib["cells"][r["target"]]["name"])
-        name_only = sorted(n for n in refd if n not in by_ptr and not any(c["name"] == n and c.get("outside") for c in lib["cells"]))
+        # (a cell placed only by name is not a top cell of the file: fixed defect, replays/C04/fixed_name_reference_top_cell.json)
         if got_tops != model_tops:
-            if not ignore_known and got_tops == sorted(model_tops + name_only):
-                ctx.stats.count("known_C04-K1_name_referenced_cell_listed_as_top")
-            else:
-                fail("S_TOP_CELL lists %s, the top cells are %s" % (got_tops, model_tops))
+            fail("S_TOP_CELL lists %s, the top cells are %s" % (got_tops, model_tops))
         std.append("S_TOP_CELL")
     # maxima
     if flags & 0x01:
